@@ -118,7 +118,7 @@ enum Who {
     User(usize),
 }
 
-fn run_all(quick: bool, only: Option<&serde_json::Value>) -> String {
+fn run_all(_quick: bool, only: Option<&serde_json::Value>) -> String {
     let cs = clients();
     let idm: Idm = match o2fx::build(&cs, 8) {
         Ok(i) => i,
